@@ -17,9 +17,20 @@ pub fn run(cfg: &Cfg, rep: &mut Report) {
         rep.sample(format!("doc {:?} opts [{}]", crate::util::show(c.md.as_bytes()), c.o.describe()));
     }
     cmrt::search(rep, &cases, Clause::Idem, 4000);
+    // the class of cm_fixed_point_canon_partial, on the real parser and the real writer
+    crate::c03::run_canoncm(rep, if cfg.tier_thorough { 3000 } else { 400 });
 }
 
 pub fn replay(kind: &str, input: &str) -> Result<Option<String>, String> {
+    if input.starts_with("canoncm ") {
+        let mut rep = Report::new("C17");
+        let toks: Vec<&str> = input.split(' ').collect();
+        let seed: u64 = toks.get(1).and_then(|x| x.parse().ok()).ok_or("bad canoncm input")?;
+        // (the sizes 3, 9, 14 of that seed are replayed together)
+        let _ = seed;
+        crate::c03::run_canoncm_one(&mut rep, seed);
+        return Ok(rep.s_fail.first().map(|c| format!("{}: {}", c.kind, c.detail)).or_else(|| rep.k_disagree.first().map(|c| format!("{}: {}", c.kind, c.detail))));
+    }
     if kind == "cm-bytes" {
         return cmrt::replay_k(input);
     }
